@@ -73,6 +73,15 @@ time_t verif_mktime(struct tm *tm) { mk_arg = *tm; ++mk_calls; return (time_t) m
 /* the header block: typed, in place */
 static struct { LHAFileHeader h; uint8_t raw[RAW_MAX]; } slot;
 static unsigned ext_calls;
+/* RAW_END_ALIGNED (safety variants): the raw header lives in its own object and is placed so that the byte after
+ * the header's declared last byte is the byte after the object - a read past the header's own bytes (which in
+ * the real block is a read past the heap allocation) is then an out-of-bounds access the solver sees. */
+#ifdef RAW_END_ALIGNED
+static uint8_t rawobj[RAW_MAX];
+static unsigned raw_cap = RAW_MAX;
+#else
+#define raw_cap RAW_MAX
+#endif
 
 #ifdef STUB_EXTEND
 static uint8_t *extend_raw_data(LHAFileHeader **header, LHAInputStream *stream, size_t nbytes)
@@ -82,7 +91,7 @@ static uint8_t *extend_raw_data(LHAFileHeader **header, LHAInputStream *stream, 
 	if (nbytes > LEVEL_3_MAX_HEADER_LEN) return NULL;                 /* same refusal as the real one */
 	CHECK(*header == &slot.h, "header object is the typed slot");
 	if (nbytes > st_len - st_pos) { st_pos = st_len; return NULL; }    /* stream cannot satisfy the read */
-	CHECK((*header)->raw_data_len + nbytes <= RAW_MAX, "slot large enough for the stream model");
+	CHECK((*header)->raw_data_len + nbytes <= raw_cap, "slot large enough for the stream model");
 	result = (*header)->raw_data + (*header)->raw_data_len;
 	if (!lha_input_stream_read(stream, result, nbytes)) return NULL;
 	(*header)->raw_data_len += nbytes;
@@ -96,9 +105,18 @@ static LHAFileHeader *begin_header(void)
 	memset(&slot.h, 0, sizeof(LHAFileHeader));
 	slot.h._refcount = 1;
 	slot.h.raw_data = slot.raw;
+#ifdef RAW_END_ALIGNED
+	{	/* total length a level-0/1 header declares for itself: first byte + 2 (at least the common 22 bytes) */
+		unsigned total = st_len > st_pos ? st_data[st_pos] + 2u : 0;
+		if (total < COMMON_HEADER_LEN) total = COMMON_HEADER_LEN;
+		if (total > RAW_MAX) total = RAW_MAX;
+		raw_cap = total;
+		slot.h.raw_data = rawobj + (RAW_MAX - total);
+	}
+#endif
 	slot.h.raw_data_len = COMMON_HEADER_LEN;
-	if (!lha_input_stream_read(&the_stream, slot.raw, COMMON_HEADER_LEN)) return NULL;
-	slot.h.header_level = slot.raw[20];
+	if (!lha_input_stream_read(&the_stream, slot.h.raw_data, COMMON_HEADER_LEN)) return NULL;
+	slot.h.header_level = slot.h.raw_data[20];
 	return &slot.h;
 }
 #endif
